@@ -29,7 +29,7 @@ def redisProgs : Progs := fun op => match op with
 
 /-- lock operations of the `dict` backend as extracted from the real class (jug/backends) -/
 def dictProgs : Progs := fun op => match op with
-  | .get => (.prim .dGet [(.nil, (.prim .dSetL [(.ok, (.ret (.bool true)))])), (.valL, (.prim .dSetL [(.ok, (.ret (.bool false)))])), (.valF, (.prim .dSetL [(.ok, (.ret (.bool false)))]))])
+  | .get => (.prim .dGet [(.nil, (.prim .dSetL [(.ok, (.ret (.bool true)))])), (.valL, (.prim .dSetL [(.ok, (.ret (.bool false)))])), (.valF, (.prim .dSetL [(.ok, (.prim .dSetF [(.ok, (.ret (.bool false)))]))]))])
   | .release => (.prim .dDel [(.ok, (.ret .none)), (.err, (.ret .raised))])
   | .isLocked => (.prim .dGet [(.nil, (.ret (.bool false))), (.valL, (.ret (.bool true))), (.valF, (.ret (.bool true)))])
   | .fail => (.prim .dGet [(.nil, (.prim .dGet [(.nil, (.ret .raised)), (.valL, (.ret (.bool false))), (.valF, (.ret (.bool true)))])), (.valL, (.prim .dSetF [(.ok, (.prim .dGet [(.nil, (.ret .raised)), (.valL, (.ret (.bool false))), (.valF, (.ret (.bool true)))]))])), (.valF, (.prim .dGet [(.nil, (.ret .raised)), (.valL, (.ret (.bool false))), (.valF, (.ret (.bool true)))]))])
